@@ -48,6 +48,7 @@ type State struct {
 }
 
 type Frame struct {
+	callRefs map[string]refBinding // by-reference captured variables of the closure whose contract is being applied
 	vc       *VC
 	fn       *ssa.Function
 	id       int
